@@ -20,8 +20,8 @@ use std::sync::Arc;
 use std::time::Duration;
 
 pub const LETTERS: &[&str] = &[
-    "valid", "unparseable", "handler-err", "handler-panic", "read-err", "read-eof", "half-sent", "write-err@0", "write-err@head", "write-err@body", "short-write", "flush-err", "stall-then-send",
-    "req:no-slash-target", "req:content-length-a", "req:suffix-range-too-long", "req:multipart-non-utf8", "req:multipart-no-name", "req:many-ranges-4mib", "req:head", "req:options",
+    "valid", "unparseable", "handler-err", "handler-panic", "handler-panic-typed-payload", "read-err", "read-eof", "half-sent", "write-err@0", "write-err@head", "write-err@body", "short-write", "flush-err", "stall-then-send",
+    "req:no-slash-target", "req:content-length-a", "req:suffix-range-too-long", "req:multipart-non-utf8", "req:multipart-no-name", "req:many-ranges-4mib", "req:head", "req:options", "req:content-length-unallocatable",
 ];
 
 const FAST: Duration = Duration::from_millis(1500);
@@ -40,6 +40,7 @@ fn request_of(letter: &str) -> Vec<u8> {
         "req:multipart-non-utf8" => drive::request_bytes("POST", "/form-multipart-enctype-post-method", "HTTP/1.1", &[("Content-Type", "multipart/form-data; boundary=XB")], b"--XB\r\nContent-Disposition: form-data; name=\"f\"\r\n\r\n\xff\xfe\r\n--XB--\r\n"),
         "req:multipart-no-name" => drive::request_bytes("POST", "/form-multipart-enctype-post-method", "HTTP/1.1", &[("Content-Type", "multipart/form-data; boundary=XB")], b"--XB\r\nContent-Disposition: attachment\r\n\r\nv\r\n--XB--\r\n"),
         "req:many-ranges-4mib" => drive::get("/four-mib.bin", &[("Range", &format!("bytes={}", vec!["0-0"; 600].join(",")))]),
+        "req:content-length-unallocatable" => drive::request_bytes("POST", "/form-url-encoded-enctype-post-method", "HTTP/1.1", &[("Host", "localhost"), ("Content-Type", "application/x-www-form-urlencoded"), ("Content-Length", "9223372036854775807")], b"a=b"),
         "req:head" => drive::request_bytes("HEAD", "/file.txt", "HTTP/1.1", &[("Host", "localhost")], b""),
         "req:options" => drive::request_bytes("OPTIONS", "/file.txt", "HTTP/1.1", &[("Origin", "https://a"), ("Access-Control-Request-Method", "GET")], b""),
         _ => valid_request(),
@@ -51,6 +52,7 @@ enum AppSel {
     Shipped,
     Err,
     Panic,
+    PanicAny,
 }
 
 /// submit one connection to the pool exactly as Server::run does; the closure reports what
@@ -99,6 +101,7 @@ fn submit(pool: &ThreadPool, mut stream: MockStream, app: AppSel, tx: mpsc::Send
             AppSel::Shipped => Server::process(tee, connection, App::new()),
             AppSel::Err => Server::process(tee, connection, Scripted::Err),
             AppSel::Panic => Server::process(tee, connection, Scripted::Panic),
+            AppSel::PanicAny => Server::process(tee, connection, Scripted::PanicAny),
         };
         if boxed_process.is_err() {
             let message = boxed_process.err().unwrap();
@@ -114,6 +117,7 @@ fn stream_of(letter: &str, gates: &mut Vec<Arc<Gate>>) -> (MockStream, AppSel) {
     match letter {
         "handler-err" => (s, AppSel::Err),
         "handler-panic" => (s, AppSel::Panic),
+        "handler-panic-typed-payload" => (s, AppSel::PanicAny),
         "read-err" => (s.with_read(ReadPlan::Err(ErrorKind::ConnectionReset)), AppSel::Shipped),
         "read-eof" => (s.with_read(ReadPlan::Eof), AppSel::Shipped),
         "half-sent" => (s.with_read(ReadPlan::Prefix(n / 2)), AppSel::Shipped),
@@ -147,6 +151,8 @@ pub struct Observation {
     pub panicked: Vec<bool>,
     pub probe_valid: String,
     pub simultaneous: usize,
+    /// connections of this history whose worker was still calling read after 200 000 calls
+    pub spinning: usize,
 }
 
 /// Run one history on a fresh pool of n workers.
@@ -156,6 +162,7 @@ pub fn run_history(n: usize, history: &[usize]) -> Observation {
 
 #[allow(non_snake_case)]
 pub fn run_history_h(n: usize, history: &[usize], HORIZON: Duration) -> Observation {
+    let runaways_before = crate::transport::runaways();
     let pool = ThreadPool::new(n);
     let (tx, rx) = mpsc::channel::<(usize, Vec<u8>, bool)>();
     let mut panicked = vec![false; history.len()];
@@ -229,7 +236,7 @@ pub fn run_history_h(n: usize, history: &[usize], HORIZON: Duration) -> Observat
             g.open();
         }
         drop(pool);
-        return Observation { statuses, panicked, probe_valid: "no-answer".into(), simultaneous: 0 };
+        return Observation { statuses, panicked, probe_valid: "no-answer".into(), simultaneous: 0, spinning: crate::transport::runaways() - runaways_before };
     }
     // probe 1: a valid request is answered correctly
     let (ptx, prx) = mpsc::channel();
@@ -267,7 +274,7 @@ pub fn run_history_h(n: usize, history: &[usize], HORIZON: Duration) -> Observat
         }
     }
     drop(pool);
-    Observation { statuses, panicked, probe_valid, simultaneous: if all_inside { n.min(served.max(inside)) } else { inside } }
+    Observation { statuses, panicked, probe_valid, simultaneous: if all_inside { n.min(served.max(inside)) } else { inside }, spinning: crate::transport::runaways() - runaways_before }
 }
 
 pub fn history_json(n: usize, h: &[usize]) -> Value {
@@ -284,6 +291,12 @@ fn judge(n: usize, h: &[usize], o: &Observation) -> Vec<(String, String)> {
         guilty.dedup();
         if !guilty.is_empty() {
             return format!("a-job-that-panicked:{}", guilty.join("+"));
+        }
+        if o.spinning > 0 {
+            let mut never: Vec<&str> = h.iter().enumerate().filter(|(i, _)| o.statuses.get(*i).map(|s| s == "never-handled").unwrap_or(false)).map(|(_, l)| LETTERS[*l]).collect();
+            never.sort();
+            never.dedup();
+            return format!("a-connection-whose-worker-never-stops-reading:{}", never.join("+"));
         }
         let mut names: Vec<&str> = h.iter().map(|l| LETTERS[*l]).filter(|l| *l != "valid").collect();
         names.sort();
@@ -305,9 +318,19 @@ fn judge(n: usize, h: &[usize], o: &Observation) -> Vec<(String, String)> {
 
 thread_local! {
     static CONFIRMED: std::cell::RefCell<std::collections::HashSet<String>> = Default::default();
+    /// letters that on their own (repeated N times) already take capacity away, with the failure
+    /// they produce: a longer history containing one is explained by it and is not run again
+    static KILLERS: std::cell::RefCell<std::collections::HashMap<(usize, usize), (String, String)>> = Default::default();
 }
 
 pub fn check_history(n: usize, h: &[usize]) -> (Observation, Vec<(String, String)>) {
+    if h.len() > 1 {
+        let known = KILLERS.with(|k| h.iter().find_map(|l| k.borrow().get(&(n, *l)).cloned()));
+        if let Some((sig, detail)) = known {
+            let o = Observation { statuses: vec![], panicked: vec![], probe_valid: "not-run".into(), simultaneous: 0, spinning: 0 };
+            return (o, vec![(sig, format!("(not run: contains a letter that already fails on its own) {}", detail))]);
+        }
+    }
     let mut o = run_history(n, h);
     let mut fails = judge(n, h, &o);
     // a failure class that has already been confirmed and minimised in this worker is not re-confirmed
@@ -330,10 +353,14 @@ pub fn check_history(n: usize, h: &[usize]) -> (Observation, Vec<(String, String
             let o2 = run_history_h(n, &rep, SLOW);
             let f2 = judge(n, &rep, &o2);
             if !f2.is_empty() {
+                KILLERS.with(|k| k.borrow_mut().insert((n, l), f2[0].clone()));
                 fails = f2;
                 break;
             }
         }
+    }
+    if !fails.is_empty() && !h.is_empty() && h.iter().all(|l| *l == h[0]) && h.len() <= n {
+        KILLERS.with(|k| k.borrow_mut().insert((n, h[0]), fails[0].clone()));
     }
     for (s, _) in &fails {
         CONFIRMED.with(|c| c.borrow_mut().insert(s.clone()));
@@ -365,7 +392,10 @@ pub fn run(ctx: &mut Ctx) {
     let mut transitions: u64 = 0;
     let mut go = |ctx: &mut Ctx, n: usize, h: Vec<usize>| {
         let j = history_json(n, &h);
-        if !ctx.begin(j.to_string().as_bytes()) {
+        if ctx.verdict_established(4) {
+            return;
+        }
+        if !ctx.begin_case(j.to_string().as_bytes(), || j.clone()) {
             return;
         }
         if !h.is_empty() {
@@ -374,11 +404,18 @@ pub fn run(ctx: &mut Ctx) {
         }
         let (o, fails) = check_history(n, &h);
         // determinism: short histories are run twice and must give the same observation
-        if h.len() <= 2 {
+        if h.len() <= 2 && o.probe_valid != "not-run" {
             let o2 = run_history(n, &h);
             if o2 != o {
                 ctx.machinery_error(format!("history {} gave two different observations: {:?} vs {:?}", j, o, o2));
             }
+        }
+        if o.probe_valid == "not-run" {
+            ctx.outcome(&format!("N={}:explained-by-a-letter-that-fails-on-its-own", n));
+            for (sig, detail) in fails {
+                ctx.fail(&sig, || j.clone(), detail);
+            }
+            return;
         }
         states.insert((n, o.simultaneous));
         ctx.add(&format!("state:workers={}:capacity={}", n, o.simultaneous), 1);
